@@ -22,9 +22,10 @@ def main():
     if "--tier" in sys.argv:
         tier = sys.argv[sys.argv.index("--tier") + 1]
     notests = "--notests" in sys.argv
+    store_as = sys.argv[sys.argv.index("--as") + 1] if "--as" in sys.argv else variant
     patch = os.path.join(seed, f"patch_{variant}.diff")
     demo = os.path.join(seed, f"demo_{variant}.py")
-    wt = f"/tmp/se-{prop}-{variant}"
+    wt = f"/tmp/se-{prop}-{variant}-{os.getpid()}"
     sh(f"git -C /repo worktree remove --force {wt}")
     r = sh(f"git -C /repo worktree add -q {wt} HEAD")
     meta = {"property": prop, "variant": variant, "source": "independent sub-agent given only the property text"}
@@ -54,7 +55,7 @@ def main():
         lines = [l for l in c.stdout.splitlines() if l.startswith(("VIOLATION", "  ", "KNOWN-FINDING", "SPEC-DRIFT", "MACHINERY"))]
         meta["check_output_head"] = lines[:8]
         meta["detected"] = c.returncode == 1 and any(l.startswith("VIOLATION") for l in c.stdout.splitlines())
-        out = os.path.join(VERIF, "seeded", f"{prop}-{variant}")
+        out = os.path.join(VERIF, "seeded", f"{prop}-{store_as}")
         os.makedirs(out, exist_ok=True)
         shutil.copy(patch, os.path.join(out, "patch.diff"))
         shutil.copy(demo, os.path.join(out, "demo.py"))
